@@ -1380,10 +1380,11 @@ class ProgramData:
                     if input_filename is not None:
                         raise RuntimeError("Program filename specified multiple times")
                     input_filename = option
-                    program_output_name = os.path.splitext(os.path.basename(input_filename))[0]
-                    program_output_name = "".join(x if (
-                        x in string.ascii_letters or x == '_' or (i > 0 and x in string.digits)
-                    ) else '_' for i, x in enumerate(program_output_name))
+                    if program_output_name is None:
+                        program_output_name = os.path.splitext(os.path.basename(input_filename))[0]
+                        program_output_name = "".join(x if (
+                            x in string.ascii_letters or x == '_' or (i > 0 and x in string.digits)
+                        ) else '_' for i, x in enumerate(program_output_name))
                     continue
                 elif option[1] == "-":
                     option_name = option[2:]
